@@ -40,6 +40,38 @@ pub fn check(c: &Case, cs: &mut CaseStats) -> Result<(), String> {
         if (vc.volume() - r.volume).abs() > tolv {
             return Err(format!("Voronoi::build cell {i}: volume {:e} vs brute force {:e} (tol {:e})", vc.volume(), r.volume, tolv));
         }
+        // the library's own built-in face integral and the compact face list must report what the
+        // harness' recorder (compared with the reference above) saw for the same planes
+        {
+            use crate::obs::PlaneFace;
+            use meshless_voronoi::integrals::AreaCentroidIntegral;
+            let mine = cell.compute_face_integrals::<(), PlaneFace>(());
+            let lib = cell.compute_face_integrals::<(), AreaCentroidIntegral>(());
+            if mine.len() != lib.len() {
+                return Err(format!("cell {i}: AreaCentroidIntegral yields {} faces, a recording face integral {}", lib.len(), mine.len()));
+            }
+            for (m, l) in mine.iter().zip(&lib) {
+                let (a, b) = (m.integral(), l.integral());
+                let scale = a.area.abs().max(1e-300);
+                if m.right() != l.right() || (a.area - b.area).abs() > 1e-12 * scale || (a.area > 0. && a.centroid.distance(b.centroid) > 1e-12 * (a.centroid.length() + 1e-300)) {
+                    return Err(format!("cell {i}: built-in AreaCentroidIntegral (area {:e}, centroid {:?}) differs from the signed-triangle sums of the same face (area {:e}, centroid {:?})", b.area, b.centroid, a.area, a.centroid));
+                }
+            }
+            for &k in &vc.face_indices(&v).to_vec() {
+                let f = &v.faces()[k];
+                if f.left() != i {
+                    continue;
+                }
+                if let Some(m) = mine.iter().find(|m| m.right() == f.right() && m.shift().map(|s| s.to_array()) == f.shift().map(|s| s.to_array()) && (f.right().is_some() || -cell.clipping_planes[m.integral().plane_idx].normal() == f.normal())) {
+                    let a = m.integral();
+                    let scale = a.area.abs().max(1e-300);
+                    if (a.area - f.area()).abs() > 1e-12 * scale || (a.area > 0. && a.centroid.distance(f.centroid()) > 1e-12 * (a.centroid.length() + 1e-300)) {
+                        return Err(format!("cell {i}: stored face towards {:?} has (area {:e}, centroid {:?}), the signed-triangle sums of that face give (area {:e}, centroid {:?})", f.right(), f.area(), f.centroid(), a.area, a.centroid));
+                    }
+                    cs.count("compact_faces_cross_checked", 1);
+                }
+            }
+        }
         // was the security radius termination exercised? (some site beyond the radius)
         let sr = meshless_voronoi::verif_hooks::cell_safety_radius(cell);
         let s1 = sites_rel(c, i, 1);
